@@ -28,6 +28,8 @@ def mixed_groups(n, seed, tag, limit=60, fixed=None, collect=None):
         pk = gen.random_params(rng, iteration_limit=limit, obj_lower_limit=-1e4)
         if i < len(pw):
             pk.update(pw[i])
+            if pk["step_solver_type"] != StepSolverType.Symmetric and pk["linear_solver_type"] == LinearSolverType.MINRES:
+                pk["linear_solver_type"] = LinearSolverType.LU
         pk["collect_path"] = bool(i % 2) if collect is None else collect
         if fixed:
             pk.update(fixed)
